@@ -337,6 +337,19 @@ Theorem sdes_keys_mirrored : forall pr ka kb,
   mirrored (derive_sdes pr ka kb) (derive_sdes pr kb ka).
 Proof. intros. unfold mirrored, derive_sdes. cbv [sdes_tx_source sdes_rx_source sdes_pick]. cbn. repeat split; reflexivity. Qed.
 
+(* RFC 4568 6.1: the key in a=crypto is the key of the party that SENT that description: each side
+   transmits with the key of its own description and receives with the key of the peer's *)
+Theorem sdes_tx_is_own_key : forall pr local remote,
+  let c := derive_sdes pr local remote in
+  k_tx_key c = slice 0 (srtp_key_len pr) local /\ k_rx_key c = slice 0 (srtp_key_len pr) remote /\
+  k_tx_salt c = slice (srtp_key_len pr) (srtp_key_len pr + srtp_salt_len pr) local /\
+  k_rx_salt c = slice (srtp_key_len pr) (srtp_key_len pr + srtp_salt_len pr) remote.
+Proof.
+  intros pr local remote. cbv zeta. unfold derive_sdes. cbv [sdes_tx_source sdes_rx_source sdes_pick].
+  cbn [k_tx_key k_rx_key k_tx_salt k_rx_salt].
+  destruct pr; vm_compute; repeat split; reflexivity.
+Qed.
+
 Theorem sdes_suite_agree :
   exists pr, map_crypto_suite sdes_round_offer = Some pr /\ map_crypto_suite sdes_round_answer = Some pr.
 Proof. eexists. vm_compute. split; reflexivity. Qed.
